@@ -21,6 +21,13 @@ class Leaf:
         return "%s %s%s <- %s" % ("/".join(self.path), self.kind, ("=" + self.name) if self.name else "", self.source)
 
 
+class Guard(tuple):
+    """(test text, polarity) of a condition an emission stands under, with `src`: the sources (attribute paths on the
+    outermost builder's domain object) of the values the test reads, resolved in the frame where the test is written"""
+
+    src = frozenset()
+
+
 class Frame:
     """one builder activation: bindings of its parameters to source expressions (texts) of the caller"""
 
@@ -221,9 +228,9 @@ class Flow:
             self.leaves.append(Leaf(p, "elem", None, None, None, node.origin, node.fn, guards))
             for nd, fr, lp in frames:
                 for (an, vexpr, g, origin) in nd.attrs:
-                    self.leaves.append(Leaf(p, "attr", an, vexpr, self._src(vexpr, fr, lp, nd, g), origin, nd.fn, guards + g))
+                    self.leaves.append(Leaf(p, "attr", an, vexpr, self._src(vexpr, fr, lp, nd, g), origin, nd.fn, guards + [self.guard(x, fr, lp) for x in g]))
                 for (vexpr, g, origin) in nd.texts:
-                    self.leaves.append(Leaf(p, "text", None, vexpr, self._src(vexpr, fr, lp, nd, g), origin, nd.fn, guards + g))
+                    self.leaves.append(Leaf(p, "text", None, vexpr, self._src(vexpr, fr, lp, nd, g), origin, nd.fn, guards + [self.guard(x, fr, lp) for x in g]))
                 for ch in nd.children:
                     self._walk_child(ch, fr, lp, p, guards, depth + 1)
 
@@ -253,10 +260,44 @@ class Flow:
                 return base
         return s
 
+    def guard(self, g, frame, loops):
+        if isinstance(g, Guard) or not (isinstance(g, tuple) and len(g) >= 2 and isinstance(g[0], str)):
+            return g
+        out = Guard(g)
+        srcs = set()
+        try:
+            te = ast.parse(g[0], mode="eval").body
+        except SyntaxError:
+            return out
+        seen = set()
+        for n in ast.walk(te):
+            if id(n) in seen:
+                continue
+            if isinstance(n, (ast.Attribute, ast.Name)) and attr_chain(n):
+                for x in ast.walk(n):
+                    seen.add(id(x))
+                try:
+                    sv = self.source(n, frame, loops)
+                except Exception:
+                    sv = None
+                if sv and not sv.startswith("const:"):
+                    srcs.add(sv)
+            elif isinstance(n, ast.Call) and call_name(n) == "getattr" and len(n.args) >= 2:
+                try:
+                    sv = self.source(n, frame, loops)
+                except Exception:
+                    sv = None
+                if sv and not sv.startswith("const:"):
+                    srcs.add(sv)
+                    for x in ast.walk(n):
+                        seen.add(id(x))
+        out.src = frozenset(srcs)
+        return out
+
     def _walk_child(self, ch, frame, loops, path, guards, depth):
         w = ch.what
         lp = loops + list(ch.loops)
-        g = guards + list(ch.guards)
+        g = guards + [self.guard(x, frame, lp) for x in ch.guards]
         if getattr(ch, "aliases", None) and frame is not None:
             frame = Frame(frame.fn, dict(frame.binds, **{k: (v, loops, "alias") for k, v in ch.aliases.items()}), frame.parent)
         if isinstance(w, tuple) and w[0] == "via":
